@@ -338,7 +338,15 @@ def gen_code(rng, cat, n=1, forms=('src', 'src', 'ast', 'fst'), uniq=None):
         else:
             if cat == 'expr':
                 parts = [p if _simple_elt(p) else '(' + p + ')' for p in parts]
-            text = sep.join(parts)
+            if cat in ('expr', 'pattern') and sep.strip() == ',' and rng.random() < 0.35:
+                # "any layout of the code being put": elements on several lines with irregular indentation
+                text = parts[0]
+                for p in parts[1:]:
+                    text += rng.choice([', ', ',\n', ',\n ', ',\n    ', ',\n        ', ' ,  ', ',\n' + ' ' * rng.randint(0, 12)]) + p
+                if rng.random() < 0.2:
+                    text += rng.choice([',', ',\n', ' ,'])
+            else:
+                text = sep.join(parts)
             form = rng.choice(('src', 'src', 'fst_all'))
     d = {'form': form, 'cat': cat, 'text': text}
     if form == 'fst_all':
